@@ -36,18 +36,19 @@ package alg
 // number of "output full" restarts; the destination prefix is preserved.  C06: the
 // result lives in dst's array or a new one.  No panic (GrowSlice's newCap >= len).
 //@ func HtmlEscape props C05,C06,C20
-//@   requires len(src) <= 35184372088832 && len(dst) <= 35184372088832 && (base(dst) != base(src) || base(src) == 0)
+//@   requires (base(dst) != base(src) || base(src) == 0)
 //@   modifies dst[_]
 //@   ensures base(result) == base(dst) || fresh(result)
 //@   ensures base(result) != 0
 //@   ensures len(result) >= len(dst)
 //@   ensures forall j int :: (0 <= j && j < len(dst)) ==> result[j] == old(dst[j])
-//@   loop 0: invariant 0 <= sidx && sidx <= len(src) && same(src, src0) && len(src) <= 35184372088832
+//@   loop 0: invariant 0 <= sidx && sidx <= len(src) && same(src, src0)
 //@   loop 0: invariant len(dst0) <= len(dst) && base(dst) != 0 && (base(dst) == base(dst0) || fresh(dst)) && cap(dst) - len(dst) >= 1
 //@   loop 0: invariant forall j int :: (0 <= j && j < len(dst0)) ==> dst[j] == old(dst0[j])
 //@   loop 0: invariant (base(dst) == pre(base(dst)) || newer(dst))
 //@   loop 0: invariant base(dst) != base(src)
 //@   ensures subtxt(result, len(dst), len(result) - len(dst)) == htmlSpec(old(txt(src)))
+//@   ensures len(dst) == 0 ==> txt(result) == htmlSpec(old(txt(src)))
 //@   loop 0: invariant tcat(rawtxt(dbuf.Ptr + len(dst0), dbuf.Len - len(dst0)), htmlSpec(rawtxt(sbuf.Ptr + sidx, sbuf.Len - sidx))) == htmlSpec(old(txt(src0)))
 //@   after native.HTMLEscape: assert tcat(rawtxt(dbuf.Ptr + len(dst0), dbuf.Len - len(dst0)), rawtxt(dbuf.Ptr + dbuf.Len, dn)) == rawtxt(dbuf.Ptr + len(dst0), dbuf.Len + dn - len(dst0))
 //@   loop 0: modifies dst, dst[_]
